@@ -382,6 +382,13 @@ def _numeric_pairs(cfg, model, keys, real_h1=False):
             re = float(model.get(key + "_r", 0))
             im = float(model.get(key + "_i", 0))
             H1[a, b] = re + 1j * im if (not herm or a <= b) else re - 1j * im
+    if cfg.get("h0_dtype"):
+        # single-precision (or integer) H_0 and eigenvectors next to a double-precision perturbation; all values are small dyadic numbers
+        dt = np.dtype(cfg["h0_dtype"])
+        H0_lab = np.asarray(H0_lab).astype(dt if not np.iscomplexobj(H0_lab) else {"float32": "complex64"}.get(dt.name, "complex128"))
+        if dt.kind == "f":
+            Q = Q.astype(dt if not np.iscomplexobj(Q) else "complex64")
+            Lq = Q if not biorth else Lq.astype(dt if not np.iscomplexobj(Lq) else "complex64")
     if real_h1:
         H1 = np.ascontiguousarray(H1.real)
     if cfg.get("h1_container"):
@@ -462,7 +469,7 @@ def c06_typed(cfg):
         err = float(np.max(np.abs(a - b))) if a.size else 0.0
         sc = max(1.0, float(np.max(np.abs(b))) if b.size else 1.0)
         worst = max(worst, err / sc)
-        if err > (1e-3 if cfg.get("kpm") else 1e-8) * sc and bad is None:
+        if err > (1e-3 if cfg.get("kpm") else 1e-4 if cfg.get("h0_dtype") == "float32" else 1e-8) * sc and bad is None:
             bad = dict(element=[NAMES[key[0]], *key[1:]], max_abs_error=err, scale=sc)
     if bad:
         rec.direct_violation("implicit mode differs from the complete-basis run on typed input (real sparse LU)", sig, bad, reproduced=True)
@@ -525,6 +532,11 @@ def configs(tier):
     # claim is not applicable to this technique (DESIGN section 4)
     jobs.append(("vf.props.implicit", "c06_typed", dict(hermitian=True, n=4, explicit=[1], basis="hadamard", spectrum=["0", "1", "3", "7"], max_order=2, _job="typed", kpm=True)))
     jobs.append(("vf.props.implicit", "c06_typed", dict(hermitian=True, n=4, explicit=[1, 1], basis="complex", spectrum=["0", "2", "3", "7"], max_order=2, _job="typed", kpm=True)))
+    # dtype mixtures: single-precision or integer H_0 with a double-precision perturbation
+    for dt in ("float32", "int64"):
+        jobs.append(("vf.props.implicit", "c06_typed", dict(hermitian=True, n=4, explicit=[1], basis="identity", spectrum=["0", "1", "3", "7"], max_order=2, _job="typed", h0_dtype=dt)))
+        jobs.append(("vf.props.implicit", "c06_typed", dict(hermitian=False, n=4, explicit=[1, 1], basis="perm", spectrum=["0", "2", "3", "7"], max_order=2, _job="typed", h0_dtype=dt, h0_format="sparse")))
+    jobs.append(("vf.props.implicit", "c06_typed", dict(hermitian=True, n=4, explicit=[2], basis="hadamard", spectrum=["0", "0", "3", "7"], max_order=2, _job="typed", h0_dtype="float32")))
     for c in cfgs:
         if c.get("pairs") or c["max_order"] < 3 and len(c["explicit"]) < 2 and not c.get("fd"):
             continue
